@@ -404,9 +404,9 @@ fn grid_vertex_lines(rng: &mut Rng) {
 
 pub fn run(rng: &mut Rng, n: usize) {
     for _ in 0..n {
-        one(rng);
-        params_and_slabs(rng);
-        grid_vertex_lines(rng);
-        grid_vertex_lines(rng);
+        case("ray.intersections", "c06.library_call_panics", || one(rng));
+        case("ray.intersections", "c06.library_call_panics", || params_and_slabs(rng));
+        case("ray.intersections", "c06.library_call_panics", || grid_vertex_lines(rng));
+        case("ray.intersections", "c06.library_call_panics", || grid_vertex_lines(rng));
     }
 }
